@@ -87,7 +87,7 @@ def run_cases(ctx, exe, cases, stream, batch=12, timeout=60):
         ml = clean(model[cid][0]) if cid in model else None
         v = judge(ops, il, ml)
         tries = 0
-        while v and tries < 2:
+        while v and tries < 2 and len(ofail) + len(diffs) < 2:     # two confirmed failures are enough
             tries += 1
             r = run_pool(ctx, exe, [("r", ops)], 1, timeout)
             il2 = clean(r["r"][0])
